@@ -62,6 +62,13 @@ type Contract struct {
 	Unreach    []int // block indices declared unreachable (cover guard)
 	AssumeNoPanic []string
 	Refine        bool // `extern refine func`: ensures to be appended to the base extern contract
+	// CallMods / CallRequires: an `extern refine func pkg::Name` block with a modifies clause
+	// on a repo function whose own (proved) contract says `modifies all`: callers use this
+	// ASSUMED frame (under these extra requires) instead; the function's own obligations
+	// are unaffected. Listed as an assumption.
+	CallMods     []Clause
+	CallRequires []Clause
+	callView     *Contract
 	AssumePure    []string // callees without contract assumed not to panic and to have no heap effect
 	Abstract   bool  // body translated with havoc tolerance; only listed obligations
 	Uses       map[string]bool
@@ -592,6 +599,19 @@ func LoadContracts(repo string, pkgDirs map[string]string, externDir string) (ma
 	}
 	for _, r := range refines {
 		base := out[r.Key()]
+		if base != nil && base.ModAll && !base.Extern && r.HasMod && !r.ModAll {
+			// assumed frame for callers of a proved `modifies all` contract
+			base.CallMods = r.Modifies
+			if len(base.CallMods) == 0 {
+				base.CallMods = []Clause{}
+			}
+			base.CallRequires = r.Requires
+			for _, e := range r.Ensures {
+				e.AssumedOnly = true
+				base.Ensures = append(base.Ensures, e)
+			}
+			continue
+		}
 		if base != nil && (len(r.Requires) > 0 || r.ModAll) {
 			contractWarnings = append(contractWarnings, fmt.Sprintf("%s:%d: extern refine of %s may only add ensures (and modifies ghost.<relation>)", r.File, r.Line, r.Name))
 			continue
@@ -637,4 +657,20 @@ func (c *Contract) Key() string {
 		return c.Name
 	}
 	return c.Pkg + "::" + c.Name
+}
+
+// forCall: the contract as callers see it (see CallMods).
+func (c *Contract) forCall() *Contract {
+	if c == nil || c.CallMods == nil || !c.ModAll {
+		return c
+	}
+	if c.callView == nil {
+		v := *c
+		v.ModAll = false
+		v.Modifies = c.CallMods
+		v.Requires = append(append([]Clause{}, c.Requires...), c.CallRequires...)
+		v.callView = nil
+		c.callView = &v
+	}
+	return c.callView
 }
